@@ -74,6 +74,11 @@ def structure_cases(ctx):
         # insertion-code siblings: a copy of a residue with the same chain and number but insertion code A (or B after A),
         # shifted by 0.9 A so that the two residues clash: they are different residues for every option
         yield (name, "icode-siblings", icode_siblings(s3, rng))
+        # one residue on its own, and one nucleotide beside a one-atom fragment (a water, an ion): clashes inside a residue are
+        # clashes unless autoclashes are ignored, however few residues there are
+        half = lambda res, a: (geo.snap(a.x * 0.7), geo.snap(a.y * 0.7), geo.snap(a.z * 0.7), 0.5)  # noqa: E731
+        yield (name, "single-residue", geo.rebuild(s3, half, keep_res=lambda i, r: i == 0))
+        yield (name, "single+fragment", geo.rebuild(s3, half, keep_res=lambda i, r: i in (0, 1), keep_atom=lambda r, a: r is s3.residues[0] or a.name == "O2'"))
         # planted close contacts: squeeze the structure
         k = rng.choice([0.55, 0.7])
         yield (name, "squeezed", geo.rebuild(s3, lambda res, a: (geo.snap(a.x * k), geo.snap(a.y * k), geo.snap(a.z * k), rng.choice([0.5, 0.5, 1.0, a.occupancy]))))
@@ -97,7 +102,7 @@ def icode_siblings(s3, rng):
 
 def run(ctx):
     from rnapolis.clashfinder import find_clashes
-    ctx.coverage["rule"] = ("corpus structures (grid-snapped), jittered, squeezed (planted close contacts), with partial/absent/zero occupancies, with insertion-code siblings (same chain and number) in contact, each under all 32 "
+    ctx.coverage["rule"] = ("corpus structures (grid-snapped), jittered, squeezed (planted close contacts), with partial/absent/zero occupancies, with insertion-code siblings (same chain and number) in contact, a single residue alone and beside a one-atom fragment, each under all 32 "
                             "option combinations, against the O(n^2) enumeration of the Coq model; CLI text and CSV parsed. "
                             "Non-trivial = >= 1 candidate pair within the query radius; distinct by (structure, option set).")
     corr_expr, corr_exp, corr_case = [], [], []
